@@ -896,9 +896,60 @@ def run_nested(job):
     return {"bad": bad, "got": got, "nested_total": nested_total}
 
 
+def run_flips(job):
+    """ONE long-lived Reusable* object, one thread; between queries its options are flipped (overwrite, cache_only)
+    and the interface changes (search / __call__ / front end).  Recorded under the forced-run instrumentation.
+    A KeyError while cache_only is set is the documented answer for a missing entry (not a failure)."""
+    global CTL, REG
+    REG = Registry()
+    load_pool(job)
+    target = make_target(job)
+    rec = Recorder()
+    CTL = rec
+    TL.idx = 0
+    results, bad, segments = [], [], []
+    try:
+        for step, st in enumerate(job["script"]):
+            if st[0] == "set":
+                setattr(target, st[1], st[2])
+                continue
+            _, q, api = st
+            TL.q = q
+            n0 = len(rec.trace)
+            cfg = {"ow": target.overwrite, "cache_only": bool(target.cache_only), "call": api == "path"}
+            yp(L_BEGIN)
+            try:
+                kind, val = ask(target, api, q)
+                prov = classify(val) if kind == "tree" else classify_path(val, q)
+                results.append([q] + prov)
+                msg = judge(kind, val, q)
+                if msg:
+                    bad.append({"step": step, "query": q, "api": api, "options": cfg, "what": msg,
+                                "got": describe(kind, val), "provenance": prov})
+            except KeyError as e:
+                results.append([q, 9])
+                if not target.cache_only:
+                    bad.append({"step": step, "query": q, "api": api, "options": cfg, "raised": repr(e)})
+            except Exception as e:
+                results.append([q, 9])
+                bad.append({"step": step, "query": q, "api": api, "options": cfg, "raised": repr(e)})
+            nsteps = len(rec.trace) - n0
+            if segments and {k: segments[-1][k] for k in ("ow", "cache_only", "call")} == cfg:
+                segments[-1]["nsteps"] += nsteps
+            else:
+                segments.append(dict(cfg, nsteps=nsteps))
+    finally:
+        CTL = None
+        TL.idx = None
+    snap = snapshot(job, None, {threading.get_ident(): 0})
+    snap.update({"trace": rec.trace, "results": [results], "bad": bad, "idents_distinct": True,
+                 "segments": segments, "programs": [[s_[1] for s_ in job["script"] if s_[0] == "q"]]})
+    return snap
+
+
 def main():
     data = json.load(sys.stdin)
-    patch_needed = any(j["kind"] in ("forced", "nested_forced") for j in data["jobs"])
+    patch_needed = any(j["kind"] in ("forced", "nested_forced", "flips") for j in data["jobs"])
     if patch_needed:
         patch()
     out = []
@@ -908,6 +959,8 @@ def main():
                 out.append(run_forced(job))
             elif job["kind"] == "seq":
                 out.append(run_seq(job))
+            elif job["kind"] == "flips":
+                out.append(run_flips(job))
             elif job["kind"] == "nested_forced":
                 out.append(run_nested_recorded(job))
             elif job["kind"] == "nested":
